@@ -957,6 +957,27 @@ def sec_structural(ck, G, T):
                 else:
                     want = np.where((rs[:, None] > 0) & (cs[None, :] > 0), A / np.sqrt(rs[:, None] * cs[None, :]), 0)
             want = np.nan_to_num(want)
+            if c == 2:
+                # documented intent of the code: diag(1/sqrt(column sums)) * A * diag(1/sqrt(row sums)), i.e. edge (a, b)
+                # becomes w_ab / (sqrt(colsum[a]) * sqrt(rowsum[b])), edge by edge, edge list unchanged; a symmetric
+                # graph stays symmetric.  A zero denominator (only possible on non-symmetric graphs) gives inf by the formula.
+                ea = np.asarray(g.edges).reshape(-1, 2)
+                w0 = np.array([w for _, _, w in edges], float)
+                with np.errstate(divide="ignore", invalid="ignore"):
+                    exp = w0 / (np.sqrt(cs[[u for u, _, _ in edges]]) * np.sqrt(rs[[v for _, v, _ in edges]]))
+                gw = np.asarray(g.weights, float).ravel()
+                fin = np.isfinite(exp)
+                ok2 = ea.tolist() == [[u, v] for u, v, _ in edges] and gw.shape == exp.shape and \
+                    np.array_equal(np.isfinite(gw), fin) and np.allclose(gw[fin], exp[fin], rtol=1e-12, atol=0)
+                if ok2 and np.array_equal(A, A.T) and fin.all() and not np.allclose(adj(g), adj(g).T, rtol=1e-12, atol=0):
+                    ok2 = False
+                if not ok2:
+                    ck.fail("normalize/c2-wrong-values", "normalize(2) on V=%d edges=%s: edges %s carry weights %s; expected w_ab / (sqrt(colsum[a]) * sqrt(rowsum[b])) = %s on the unchanged edge list" % (
+                        V, edges, ea.tolist(), gw.tolist(), exp.tolist()), dict(rp, c=c))
+                elif V <= 6 and fin.all():
+                    sq = [(int(a), int(b), Fraction(*float(x).as_integer_ratio()) ** 2) for (a, b), x in zip(ea.tolist(), gw.tolist())]
+                    T.add("normalize", "qel_close49 %s (normalize2_sq_model %s)" % (cQE(sq), cQE(edges)), dict(rp, c=c, impl=elist(g)), hdr=HDRQ)
+                continue
             ok = np.size(g.weights) == np.shape(g.edges)[0] and np.allclose(adj(g), want, atol=1e-12)
             if c < 2 and V <= 6 and np.size(g.weights) == np.shape(g.edges)[0]:
                 # exact model vs floats: each weight must be within half an ulp (2^-53 relative) of the rational quotient
